@@ -5,8 +5,10 @@ Only stdlib entry points that ssh-audit reaches through their modules are replac
 Everything a peer does is described by a JSON-serialisable *spec* so that any case can be written
 to a replay file and re-executed without the generator.
 """
+import builtins
 import contextlib
 import errno
+import os
 import select
 import socket
 import struct
@@ -525,6 +527,12 @@ class VSocket:
         return tuple(self.rec['addr'] or ('0.0.0.0', 0))
 
 
+def _fast_pow(g, x, p=None):
+    if p is None:
+        return builtins.pow(g, x)
+    return builtins.pow(g, (x & 0xffffffff) | 0x100000000, p)
+
+
 class HarnessHang(BaseException):
     """Raised by the fake network where the real program would block for ever."""
 
@@ -626,8 +634,14 @@ class FakeNet:
     @contextlib.contextmanager
     def installed(self):
         import ssh_audit.dheat as dheat
+        import ssh_audit.kexdh as kexdh
         _CUR[0] = self
         old_time = dheat.time
+        # The value of the tool's DH public key e = g^x mod p is irrelevant to the scripted peers; a full-size
+        # modular exponentiation per probe connection dominates run time, so inside engine A the exponent is
+        # shortened (engine B runs the real arithmetic).  VERIF_REAL_POW=1 disables the shortcut.
+        if not os.environ.get('VERIF_REAL_POW'):
+            kexdh.pow = _fast_pow
         socket.socket = VSocket
         socket.getaddrinfo = self.getaddrinfo
         select.select = self.select
@@ -639,3 +653,5 @@ class FakeNet:
             socket.getaddrinfo = _real_getaddrinfo
             select.select = _real_select
             dheat.time = old_time
+            if 'pow' in kexdh.__dict__:
+                del kexdh.pow
